@@ -597,7 +597,7 @@ func runWith(cs Case, class string, given *cfg.Config, extra map[string]interfac
 		}
 	}
 	if r.Validate.Class <= 1 && r.Build.Class <= 1 {
-		if r.Validate.Class == 0 && r.Build.Class == 1 && r.Build.Code != 9 {
+		if r.Validate.Class == 0 && r.Build.Class == 1 && (r.Build.Code != 9 || strings.HasPrefix(r.Build.Msg, "aes")) {
 			fail("Validate accepts but Build rejects: "+r.Build.Msg, "validate-ok-build-err")
 		}
 		if r.Validate.Class == 1 && r.Build.Class == 0 {
